@@ -22,7 +22,7 @@ import time
 
 VERIF = os.path.dirname(os.path.dirname(os.path.abspath(__file__)))
 REPO = os.environ.get('CP_REPO', '/repo')
-LEAN = os.path.join(VERIF, 'lean')
+LEAN = os.environ.get('CP_LEAN', os.path.join(VERIF, 'lean'))   # overridable so that a scratch copy can be used
 CPDRV = os.path.join(LEAN, '.lake', 'build', 'bin', 'cpdrv')
 
 if REPO not in sys.path:
